@@ -24,7 +24,7 @@ type Violation struct {
 	Harness string                 `json:"harness"`
 	Params  []int64                `json:"params"`
 	Label   string                 `json:"label"`
-	Kind    string                 `json:"kind"` // assert | panic | deadlock | depth-cap | race
+	Kind    string                 `json:"kind"` // assert | panic | deadlock | depth-cap | loop-cap | race
 	Msg     string                 `json:"msg,omitempty"`
 	Inputs  map[string]interface{} `json:"inputs"`
 	Choices []int64                `json:"choices"`
@@ -614,6 +614,15 @@ func (w *Worker) runPath(jr *jobRun, fn *ssa.Function) {
 			m, ok := ex.modelNow()
 			if ok {
 				ex.recordViolation("depth-cap", "depth-cap", end.msg, m)
+				break
+			}
+		}
+		if strings.Contains(end.msg, "loop unrolling cap") {
+			// a loop that runs past the unrolling cap on one path is a candidate
+			// non-termination: reported only if the native replay hangs as well
+			m, ok := ex.modelNow()
+			if ok {
+				ex.recordViolation("loop-cap", "loop-cap", end.msg, m)
 				break
 			}
 		}
